@@ -844,6 +844,31 @@ func ruleR13_6(w *World, r *Report) {
 		r.Check(same, "R13.6", key, w.InstrPos(rp.Incr),
 			"both are  "+a.String(),
 			fmt.Sprintf("the counter is incremented under  %s  but the literal is stored under  %s ; they differ for %s", a.String(), b.String(), diff))
+		// and the shared predicate is the one the format defines: a clause is soft when there is no top weight or its
+		// weight is strictly below the top weight (a weight equal to the top marks a hard clause)
+		if same {
+			topArg, weightRes := "", ""
+			for i, arg := range rp.Call.Call.Args {
+				if typeShort(arg.Type()) == "int" && topArg == "" {
+					topArg = fmt.Sprintf("arg#%d", i)
+				}
+			}
+			res := rp.Callee.Signature.Results()
+			for j := 0; j < res.Len(); j++ {
+				if typeShort(res.At(j).Type()) == "int" && weightRes == "" {
+					weightRes = fmt.Sprintf("result#%d", j)
+				}
+			}
+			ref := predicate{DNF: [][]predLit{{{Op: token.EQL, X: topArg, Y: "k:0", Pos: true}}, {{Op: token.LSS, X: weightRes, Y: topArg, Pos: true}}}, Atoms: map[string]bool{topArg: true, weightRes: true}}
+			key2 := w.FuncName(caller) + " / " + w.FuncName(rp.Callee) + " soft means below the top weight"
+			if topArg == "" || weightRes == "" || !a.Atoms[topArg] || !a.Atoms[weightRes] {
+				r.Unk("R13.6", key2, w.InstrPos(rp.Incr), "cannot identify the top weight argument and the weight result in the predicate  "+a.String())
+			} else {
+				ok2, diff2 := samePredicate(a, ref)
+				r.Check(ok2, "R13.6", key2, w.InstrPos(rp.Incr), "the predicate is  top == 0 || weight < top",
+					fmt.Sprintf("the predicate  %s  is not `no top weight, or weight strictly below the top weight` (differs for %s): clauses carrying the top weight are relaxed, so hard clauses can be violated", a.String(), diff2))
+			}
+		}
 	}
 }
 
